@@ -150,8 +150,12 @@ void harness(void)
     static const char seq[] = SEQ;
     obj_t o[2]; int live[2] = {0, 0}; uint8_t out[2 * B + 3];
     HARNESS_BEGIN();
-    sym_inputs();
-    for (int i = 0; i < MAXBLK; i++) ASSUME(sym_allocfail[i] == 0);
+    /* the data of a life-cycle sequence is concrete: by C08 no branch and no address of the library depends on key,
+       tweak, counter or data bytes, so allocation, release and return-value behaviour cannot depend on them either;
+       symbolic data here would only make the solver re-derive the ciphers (measured: > 15 min per sequence) */
+    for (unsigned i = 0; i < sizeof sym_key; i++) sym_key[i] = (uint8_t)(0x11 * i + 7);
+    for (unsigned i = 0; i < sizeof sym_data; i++) sym_data[i] = (uint8_t)(0x35 * i + 1);
+    for (unsigned i = 0; i < sizeof sym_tw; i++) sym_tw[i] = (uint8_t)(0x5b * i + 3);
     memset(o, 0, sizeof o);
     for (unsigned s = 0; s + 1 < sizeof seq; s++) {
         char c = seq[s]; int k = (c >= 'a'); char u = (char)(k ? c - 32 : c); int r;
@@ -165,7 +169,7 @@ void harness(void)
 #else
             else if (u == 'T') { r = op_set_tkey(&o[k], sym_key, BLK * (1 + (s % 2))); if (r) r = op_set_tweak(&o[k], sym_tw, 1 + (s % BLK)); }
 #endif
-            else if (u == 'C') r = op_set_counter(&o[k], sym_cnt, s % (BLK + 1));
+            else if (u == 'C') { for (int i = 0; i < BLK; i++) sym_cnt[i] = (uint8_t)(0xF0 + i); r = op_set_counter(&o[k], sym_cnt, s % (BLK + 1)); }
             else r = op_encrypt(&o[k], out, sym_data, B + 3);
             CHECK(r == (live[k] ? 1 : 0), "a call on a live object returns 1, on a zeroed or cleaned-up object 0");
         }
